@@ -16,7 +16,7 @@ static std::string sep_gen(int need) {
   return safe[*vf::index(safe.size())];
 }
 
-struct Plan { std::string fmt; bool uses_percent_s = false; bool week_form = false, name_form = false, e4y = false, frac = false; };
+struct Plan { std::string fmt; bool uses_percent_s = false; bool week_form = false, name_form = false, e4y = false, frac = false, twelve = false; };
 
 static Plan plan_gen(int offset_secs, int64_t year, int64_t fs) {
   Plan P;
@@ -43,15 +43,19 @@ static Plan plan_gen(int offset_secs, int64_t year, int64_t fs) {
       }
     }
     // time
-    int tstyle = *vf::range<int>(0, 5);
+    int tstyle = *vf::range<int>(0, 8);
     int need_digits = 0; { int64_t v = fs; int n = 15; while (n > 0 && v % 10 == 0) { v /= 10; --n; } need_digits = fs ? n : 0; }
-    if (fs != 0 && tstyle >= 4) tstyle = *vf::range<int>(0, 3);  // plain %S / %T would lose the fraction
+    if (fs != 0 && (tstyle == 4 || tstyle == 5 || tstyle == 8)) tstyle = *rc::gen::element(0, 1, 2, 3, 6, 7);  // plain %S / %T / %r would lose the fraction
     switch (tstyle) {
       case 0: pieces.push_back(Piece{"%H", 0, false}); pieces.push_back(Piece{"%M", 0, false}); pieces.push_back(Piece{"%E*S", 2, false}); break;
       case 1: pieces.push_back(Piece{"%H", 0, false}); pieces.push_back(Piece{"%M", 0, false}); pieces.push_back(Piece{"%S.%E*f", 2, false}); break;
       case 2: pieces.push_back(Piece{"%H", 0, false}); pieces.push_back(Piece{"%M", 0, false}); pieces.push_back(Piece{"%E" + std::to_string(*vf::range<int>(need_digits, 18)) + "S", 2, false}); break;
       case 3: pieces.push_back(Piece{"%H:%M:%E*S", 2, false}); break;
       case 4: pieces.push_back(Piece{"%H", 0, false}); pieces.push_back(Piece{"%M", 0, false}); pieces.push_back(Piece{"%S", 0, false}); break;
+      // the hour on the 12-hour clock with its AM/PM marker (the pieces are shuffled: the marker may come first)
+      case 6: pieces.push_back(Piece{"%I", 0, false}); pieces.push_back(Piece{"%M", 0, false}); pieces.push_back(Piece{"%E*S", 2, false}); pieces.push_back(Piece{"%p", 2, false}); P.twelve = true; break;
+      case 7: pieces.push_back(Piece{"%l", 1, true}); pieces.push_back(Piece{"%M", 0, false}); pieces.push_back(Piece{"%S.%E*f", 2, false}); pieces.push_back(Piece{"%p", 2, false}); P.twelve = true; break;
+      case 8: pieces.push_back(Piece{"%r", 2, false}); P.twelve = true; break;
       default: pieces.push_back(Piece{"%T", 0, false}); break;
     }
     if (fs != 0) P.frac = true;
@@ -121,7 +125,7 @@ static void run(const vf::Args& a, vf::Evidence& ev, vf::Reporter& rep) {
     vf::Case c; c.set("zone", zf.label); c.set("parse_zone", zp.label); c.set("format_hex", vf::hex(P.fmt)); c.set("format_printable", vf::esc(P.fmt)); c.set("t", t); c.set("fs", fs);
     vf::CurrentScope cur([&]() { return c; });
     EV->eval();
-    if (P.week_form) EV->cls("date_by_week_number"); if (P.name_form) EV->cls("date_by_month_name"); if (P.e4y) EV->cls("year_E4Y");
+    if (P.week_form) EV->cls("date_by_week_number"); if (P.name_form) EV->cls("date_by_month_name"); if (P.e4y) EV->cls("year_E4Y"); if (P.twelve) EV->cls("hour_on_the_12_hour_clock");
     if (P.uses_percent_s) EV->cls("percent_s"); if (al.offset % 60) EV->cls("offset_with_seconds");
     bool nt = al.cs.year() < 0 || al.cs.year() > 9999 || fs != 0 || (al.offset % 60) != 0 || P.week_form || P.name_form || t > (1LL << 55) || t < -(1LL << 55);
     if (nt) EV->nt(vf::mix(vf::fnv(P.fmt), vf::mix((uint64_t)t, (uint64_t)fs ^ vf::fnv(zf.label))));
